@@ -5,6 +5,8 @@ LEVEL = "proof"
 
 
 def run(ctx):
+    # leaf translator: theorems re-checked against the Gallina translation of the current Go source
+    generic.leaf_obligations(ctx, ['Line'])
     generic.standard(ctx, "Props_C19", "c19", "fast-paths", lists=("M", "PM", "SM"), ledger="known/C19.ledger")
     ctx.coverage["explanation"] = (
         "Coq (FastPath.v): a byte-level regex AST with a backtracking reference (validated per run against regexp: SM = []); for each "
